@@ -694,6 +694,7 @@ pub fn run(run: &Run) {
     // ---- message stream ids as a value dimension: every id 0..=70 and ids around byte boundaries ----
     {
         let mut scripts = 0u64;
+        let mut scripts_done = 0u64;
         let ids: Vec<u32> = (0..=70u32).chain([255, 256, 257, 65_535, 65_536, 0xFF_FFFF, 0x100_0000, 0x7FFF_FFFF, 0x8000_0000, 0xFFFF_FFFE]).collect();
         // client: the server answers createStream with the id
         for &sid in ids.iter() {
@@ -708,8 +709,15 @@ pub fn run(run: &Run) {
                 CAct::OnStatus { code: "NetStream.Publish.Start".into() },
                 CAct::PublishVideo { ts: 10, len: 3, droppable: false }, CAct::PublishAudio { ts: 12, len: 200, droppable: true },
                 CAct::PublishMeta { variant: 5 }, CAct::PublishVideo { ts: 50, len: 3, droppable: false }, CAct::PublishAudio { ts: 52, len: 0, droppable: false },
+                // the connection is used again after the activity ended: a second publish with messages longer than the
+                // default chunk size, at equal and at falling timestamps
+                CAct::StopPublishing, CAct::RequestPublishing { key: "k2".into(), kind: 1 }, CAct::Result { tx: 3.0, stream: Some(sid.wrapping_add(1) as f64) },
+                CAct::OnStatus { code: "NetStream.Publish.Start".into() },
+                CAct::PublishVideo { ts: 60, len: 600, droppable: false }, CAct::PublishVideo { ts: 60, len: 600, droppable: false }, CAct::PublishAudio { ts: 60, len: 5, droppable: false },
+                CAct::PublishAudio { ts: 60, len: 5, droppable: false }, CAct::PublishAudio { ts: 40, len: 5, droppable: true }, CAct::PublishMeta { variant: 16 },
             ];
             let mut done: Vec<Value> = Vec::new();
+            let mut finished = true;
             for a in script.iter() {
                 let o = g.step(&cur, a);
                 ti += o.impl_steps;
@@ -717,13 +725,21 @@ pub fn run(run: &Run) {
                 done.push(describe_cact(a));
                 if let Some((sig, d)) = o.viol.into_iter().next() {
                     run.violation(&sig, &d, json!({"plan": "client publishing on message stream id sweep", "message_stream_id": sid, "ops": done}));
+                    finished = false;
                     break;
                 }
                 // the successor in which nothing was dropped comes first
                 cur = match o.succ.into_iter().next() {
                     Some(x) => x,
-                    None => break,
+                    None => {
+                        finished = false;
+                        run.cap_hit(&format!("client stream-id script for id {} stopped at step {} ({:?}): the protocol model did not accept the step", sid, done.len(), a));
+                        break;
+                    }
                 };
+            }
+            if finished {
+                scripts_done += 1;
             }
             scripts += 1;
         }
@@ -742,8 +758,14 @@ pub fn run(run: &Run) {
                 SAct::Play { sid: target, key: "k".into() }, SAct::Accept { id: 1 },
                 SAct::SendVideo { sid: target, ts: 10, len: 3, droppable: false }, SAct::SendAudio { sid: target, ts: 12, len: 200, droppable: true },
                 SAct::SendMeta { sid: target, variant: 5 }, SAct::SendVideo { sid: target, ts: 50, len: 3, droppable: false }, SAct::SendAudio { sid: target, ts: 52, len: 0, droppable: false },
+                // equal and falling timestamps, messages longer than the default chunk size, then a second playback
+                SAct::SendVideo { sid: target, ts: 60, len: 600, droppable: false }, SAct::SendVideo { sid: target, ts: 60, len: 600, droppable: false },
+                SAct::SendAudio { sid: target, ts: 60, len: 5, droppable: false }, SAct::SendAudio { sid: target, ts: 60, len: 5, droppable: false }, SAct::SendAudio { sid: target, ts: 40, len: 5, droppable: true },
+                SAct::FinishPlaying { sid: target }, SAct::Play { sid: target, key: "k2".into() }, SAct::Accept { id: 2 },
+                SAct::SendVideo { sid: target, ts: 70, len: 600, droppable: false }, SAct::SendMeta { sid: target, variant: 16 },
             ]);
             let mut done: Vec<Value> = Vec::new();
+            let mut finished = true;
             for a in script.iter() {
                 let o = g.step(&cur, a);
                 ti += o.impl_steps;
@@ -753,16 +775,25 @@ pub fn run(run: &Run) {
                 }
                 if let Some((sig, d)) = o.viol.into_iter().next() {
                     run.violation(&sig, &d, json!({"plan": "server playing on the n-th created stream", "message_stream_id": target, "ops": done}));
+                    finished = false;
                     break;
                 }
                 cur = match o.succ.into_iter().next() {
                     Some(x) => x,
-                    None => break,
+                    None => {
+                        finished = false;
+                        run.cap_hit(&format!("server stream-id script for id {} stopped at {:?}: the protocol model did not accept the step", target, a));
+                        break;
+                    }
                 };
+            }
+            if finished {
+                scripts_done += 1;
             }
             scripts += 1;
         }
         run.count("message_stream_id_scripts", scripts);
+        run.count("message_stream_id_scripts_run_to_the_end", scripts_done);
     }
     run.merge_hist(&agg.map());
     run.set("states", json!(ts));
